@@ -109,7 +109,8 @@ def backlog_round_trip(ctx, rule):
                    'restored from the backlog entry' % a, ctx.loc(rf))
 
 
-def subworkflow_recursion_unrestricted(ctx, rule, fq, rec_name):
+def subworkflow_recursion_unrestricted(ctx, rule, fq, rec_name,
+                                       own_states=None):
     """The handler's recursion into sub-workflows is not restricted by the
     state of the parent *task*: sub-workflows hang off tasks in any state
     (a with-items task is already PAUSED when one child paused it), the
@@ -124,6 +125,29 @@ def subworkflow_recursion_unrestricted(ctx, rule, fq, rec_name):
            or dotted(c.func.value) in (None, 'self')]
     if not rec:
         raise AnalysisError('%s: recursion into sub-workflows lost' % fq)
+    # the sub-workflows visited are the children of this execution's tasks
+    for n, c in rec:
+        loops = [x for x in own_nodes(f.node) if isinstance(x, ast.For) and
+                 any(y is c for b in x.body for y in ast.walk(b))]
+        okc = False
+        for lp in loops:
+            it = U.canon_expr(f.node, lp.iter)
+            for q in ast.walk(it):
+                if isinstance(q, ast.Call) and \
+                        U.call_name(q) == 'get_workflow_executions':
+                    kws = {k.arg: norm(k.value) for k in q.keywords}
+                    outer = [o for o in loops if norm(o.iter) ==
+                             '%s.task_executions' % f.params[0]]
+                    okc = okc or (list(kws) == ['task_execution_id'] and
+                                  bool(outer) and kws['task_execution_id'] ==
+                                  '%s.id' % norm(outer[0].target) and
+                                  norm(c.args[0]) == norm(lp.target))
+        rule.check(okc, ctx.construct(f, extra='children of every task'),
+                   'the recursion does not visit exactly the sub-workflows '
+                   'started by each task of this execution '
+                   '(get_workflow_executions(task_execution_id=<task>.id) '
+                   'for every task): part of the tree below is not reached',
+                   ctx.loc(f, c))
     for n, c in rec:
         vals = sd.values_at(IN, keys, n, 'task_ex.state')
         missing = set(sd.ALL) - vals
@@ -133,9 +157,25 @@ def subworkflow_recursion_unrestricted(ctx, rule, fq, rec_name):
                    'recursion (the only legitimate filter is the '
                    'sub-workflow\'s own state)' % sorted(missing),
                    ctx.loc(f, c))
+    # ... nor by the state of the workflow itself: a repeated pause / resume
+    # / cancel request has to reach sub-workflows the first one missed (a
+    # sub-workflow started under an already PAUSED parent by a task that was
+    # created before the pause)
+    wkey = f.params[0] + '.state'
+    done = sd.pred_set('is_completed')
+    IN, keys = sd.analyze(cfg, f, [(wkey, sd.state_domain)],
+                          kill=lambda c: ())
+    for n, c in rec:
+        vals = sd.values_at(IN, keys, n, wkey)
+        missing = (set(own_states) if own_states is not None
+                   else set(sd.ALL) - done) - vals
+        rule.check(not missing, ctx.construct(
+            f, extra='recursion whatever the state of the workflow itself'),
+            'the walk down the sub-workflows is skipped when the workflow '
+            'itself is %s: a repeated request does not reach sub-workflows '
+            'that the first one missed' % sorted(missing), ctx.loc(f, c))
     # ... and that filter lets every unfinished sub-workflow through
     # (PAUSED and IDLE ones included)
-    done = sd.pred_set('is_completed')
     IN, keys = sd.analyze(cfg, f, [('sub_wf_ex.state', sd.state_domain)],
                           kill=lambda c: ())
     for n, c in rec:
